@@ -151,7 +151,9 @@ func (g *docGen) heredoc() string {
 	return sb.String()
 }
 
-var wWords = []string{"a", "b", "example.com", "localhost:8080", "reverse_proxy", "/api/*", "*.example.com", "@m", "200", "it's", "x=y", "\u00e9", "\u65e5\u672c", "\ufffd", "a\U0001F600", "$", "~"}
+var wWords = []string{"a", "b", "example.com", "localhost:8080", "reverse_proxy", "/api/*", "*.example.com", "@m", "200", "it's", "x=y", "\u00e9", "\u65e5\u672c", "\ufffd", "a\U0001F600", "$", "~",
+	// placeholders: the formatter keeps the `{` back for one character, like a block brace
+	"{x}", "{http.request.uri}", "a{x}b", "{a}{b}", "{}", "{$HOME}", "x{}", "{env.PORT}:80", "http://{host}/{path}"}
 
 func (g *docGen) token() string {
 	if g.wonly {
